@@ -23,6 +23,14 @@ property clauses
                                `C04.uidv_restart_witness` and gets the stable label
                                `cause=uidvalidity-regress-after-restart`
 
+* raced commands (oracle step `RACE`: a second party's UID-assigning operation is run at one
+  database-call boundary *inside* the command) are judged by the internal consistency of their own
+  response: `select-uidnext-not-above-view` (the UIDNEXT of a SELECT/EXAMINE response is not above a
+  UID of the `EXISTS` messages the very view it opened shows), `select-exists-above-view`,
+  `select-view-unexplained`, `status-uidnext-not-above-counted` (STATUS counts a message whose UID is
+  not below the UIDNEXT of the same response), `status-messages-unexplained`; the UIDNEXT of such a
+  response may be larger than needed (the second party ran first), never smaller
+
 model predictions (the tie of `Model/UidSeq.lean` and `Model/UidValidity.lean` to the server)
 * every (name, uidvalidity) behaves like one AUTOINCREMENT table: `n` new UIDs are exactly what
   `UidSeq.applyOps (replicate n .insert)` hands out, UIDNEXT is `UidSeq.uidNext`; a rolled-back
@@ -49,6 +57,12 @@ inductive Ev where
   | status (name : String) (uidv uidNext : Nat)
   | listing (name : String) (uidv uidNext : Nat) (msgs : List (Nat × String))
   | view (name : String) (uidv : Nat) (msgs : List (Nat × String))
+  /-- a SELECT/EXAMINE raced by a second party: its own `EXISTS` and `UIDNEXT`, the view it opened
+      (listing in the same session right after), the UIDs the second party added to the mailbox -/
+  | selectRace (name : String) (uidv nExists uidNext : Nat) (view : List (Nat × String)) (injected : List Nat)
+  /-- a STATUS raced by a second party: its own `MESSAGES` and `UIDNEXT`, the listing a fresh
+      observer took right after, the UIDs the second party added -/
+  | statusRace (name : String) (uidv messages uidNext : Nat) (listing : List (Nat × String)) (injected : List Nat)
 deriving Repr
 
 /-- what is known about one (mailbox name, UIDVALIDITY) -/
@@ -60,6 +74,8 @@ structure Box where
   nextSeen : Nat := 0                  -- last UIDNEXT announced (0 = none yet)
   pend : List (Nat × String) := []     -- announced by APPENDUID/COPYUID, not yet confirmed by a fresh listing
   pendFrom : String := "appenduid"     -- which response code announced them
+  nextFloor : Nat := 0                 -- greatest UIDNEXT a raced command announced (a lower bound for later ones;
+                                       -- not a bound on the second party's UIDs, which may have been assigned before it was read)
 deriving Repr
 
 /-- what is known about one mailbox name -/
@@ -87,6 +103,8 @@ structure St where
   renames : Nat := 0
   announced : Nat := 0
   confirmed : Nat := 0
+  raced : Nat := 0                     -- raced SELECT/EXAMINE/STATUS responses judged
+  racedSeen : Nat := 0                 -- … of which showed the second party's message
   touchedSinceRestart : List (String × Nat) := []
 deriving Repr
 
@@ -203,8 +221,8 @@ def assign (st : St) (b : Box) (news : List (Nat × String)) (announce : Bool) (
 def seeNext (b : Box) (uidNext : Nat) : Except String Box :=
   if uidNext ≤ b.m.seq then
     .error s!"property cause=uidnext-not-above-assigned mailbox={b.name} uidvalidity={b.uidv} uidnext={uidNext} greatest-uid-assigned={b.m.seq}"
-  else if uidNext < b.nextSeen then
-    .error s!"property cause=uidnext-decreased mailbox={b.name} uidvalidity={b.uidv} uidnext={uidNext} announced-before={b.nextSeen}"
+  else if uidNext < max b.nextSeen b.nextFloor then
+    .error s!"property cause=uidnext-decreased mailbox={b.name} uidvalidity={b.uidv} uidnext={uidNext} announced-before={max b.nextSeen b.nextFloor}"
   else if uidNext != UidSeq.uidNext b.m then
     .error s!"model cause=model-uidnext-differs mailbox={b.name} uidvalidity={b.uidv} uidnext={uidNext} predicted={UidSeq.uidNext b.m}"
   else .ok { b with nextSeen := uidNext }
@@ -214,6 +232,49 @@ def checkPending (b : Box) (msgs : List (Nat × String)) : Except String Unit :=
   | some (u, mk) =>
     .error s!"property cause=announced-uid-not-found mailbox={b.name} uidvalidity={b.uidv} uid={u} marker={mk} (APPENDUID/COPYUID said so; the listing shows {msgs.lookup u})"
   | none => .ok ()
+
+/-- lower bounds every UIDNEXT obeys, whatever the second party did meanwhile -/
+def seeNextRaced (b : Box) (uidNext : Nat) : Except String Box :=
+  if uidNext ≤ b.m.seq then
+    .error s!"property cause=uidnext-not-above-assigned mailbox={b.name} uidvalidity={b.uidv} uidnext={uidNext} greatest-uid-assigned={b.m.seq} (raced command)"
+  else if uidNext < max b.nextSeen b.nextFloor then
+    .error s!"property cause=uidnext-decreased mailbox={b.name} uidvalidity={b.uidv} uidnext={uidNext} announced-before={max b.nextSeen b.nextFloor} (raced command)"
+  else .ok { b with nextFloor := max b.nextFloor uidNext }
+
+/-- **A SELECT/EXAMINE response is consistent with the view it opens**: the first `nExists`
+    messages of the view are the ones the response announced; every one of their UIDs is below
+    the announced UIDNEXT; what the view shows beyond them was added by the second party. -/
+def checkSelectRace (name : String) (uidv nExists uidNext : Nat) (view : List (Nat × String)) (injected : List Nat) :
+    Except String Unit :=
+  if view.length < nExists then
+    .error s!"property cause=select-exists-above-view mailbox={name} uidvalidity={uidv} exists={nExists} view={view.map (·.1)} (the response announces more messages than the view it opened holds)"
+  else
+    match (view.take nExists).find? (fun p => uidNext ≤ p.1) with
+    | some (u, mk) =>
+      .error s!"property cause=select-uidnext-not-above-view mailbox={name} uidvalidity={uidv} uidnext={uidNext} exists={nExists} uid={u} marker={mk} view={view.map (·.1)} (the mailbox the response opened holds a UID that is not below the UIDNEXT of the same response)"
+    | none =>
+      match (view.drop nExists).find? (fun p => !injected.contains p.1) with
+      | some (u, mk) =>
+        .error s!"property cause=select-view-unexplained mailbox={name} uidvalidity={uidv} exists={nExists} uid={u} marker={mk} view={view.map (·.1)} second-party={injected} (a message beyond EXISTS that nobody added meanwhile)"
+      | none => .ok ()
+
+/-- **A STATUS response is consistent in itself**: the messages it counts are the ones a fresh
+    listing shows right after, with or without the second party's additions, and every UID it
+    counts is below the UIDNEXT of the same response. -/
+def checkStatusRace (name : String) (uidv messages uidNext : Nat) (listing : List (Nat × String)) (injected : List Nat) :
+    Except String Unit :=
+  let all := listing.map (·.1)
+  let without := all.filter (fun u => !injected.contains u)
+  let counted : Option (List Nat) :=
+    if messages == all.length then some all else if messages == without.length then some without else none
+  match counted with
+  | none =>
+    .error s!"property cause=status-messages-unexplained mailbox={name} uidvalidity={uidv} messages={messages} listing={all} second-party={injected}"
+  | some us =>
+    match us.find? (fun u => uidNext ≤ u) with
+    | some u =>
+      .error s!"property cause=status-uidnext-not-above-counted mailbox={name} uidvalidity={uidv} messages={messages} uidnext={uidNext} uid={u} listing={all} second-party={injected} (STATUS counts a message whose UID is not below the UIDNEXT of the same response)"
+    | none => .ok ()
 
 def markAll (st : St) (f : NameInfo → NameInfo) : St := { st with names := st.names.map f }
 
@@ -281,6 +342,21 @@ def step (st : St) : Ev → Except String St
     let (b, st) := boxFor st name uidv
     let (b, st) ← assign st b msgs false
     pure (setBox st b)
+  | .selectRace name uidv nExists uidNext view injected => do
+    let st ← seeUidv st name uidv
+    checkSelectRace name uidv nExists uidNext view injected
+    let (b, st) := boxFor st name uidv
+    let b ← seeNextRaced b uidNext
+    let (b, st) ← assign st b view false
+    let saw := view.any fun p => injected.contains p.1
+    pure { setBox st b with raced := st.raced + 1, racedSeen := if saw then st.racedSeen + 1 else st.racedSeen }
+  | .statusRace name uidv messages uidNext listing injected => do
+    let st ← seeUidv st name uidv
+    checkStatusRace name uidv messages uidNext listing injected
+    let (b, st) := boxFor st name uidv
+    let b ← seeNextRaced b uidNext
+    let saw := messages == listing.length && listing.any fun p => injected.contains p.1
+    pure { setBox st b with raced := st.raced + 1, racedSeen := if saw then st.racedSeen + 1 else st.racedSeen }
 
 def run : St → List Ev → Except String St
   | st, [] => .ok st
